@@ -275,3 +275,69 @@ def r16e(R):
              if isinstance(n, ast.Compare)]
     R.check(cr, 'optional [ ... ] round a call', '[' in texts and ']' in texts,
             '_call_routine no longer accepts the bracketed form')
+
+
+@rule('R16.f', ('C16', 'C18'), 'source lines are split at the newline '
+      'character only; string tokens are stripped of their quotes before '
+      'escaped quotes are resolved', floor=2,
+      decides='white space other than the line break never ends a line (a '
+              'string or comment may contain it); a quoted string yields '
+              'exactly the characters between its quotes, including a final '
+              'backslash')
+def r16f(R):
+    A = R.A
+    lex = A.cls(LEX, 'Lex')
+    init = lex.methods['__init__']
+    param = init.params[1]
+    splits = [c for c in A.calls_in(init) if isinstance(c.func, ast.Attribute)
+              and norm(c.func.value) == param]
+    ok = False
+    what = norm(splits[0]) if splits else '?'
+    for c in splits:
+        if c.func.attr == 'split' and len(c.args) == 1 and \
+                A.try_fold(c.args[0], init) == '\n':
+            ok = True
+        # library semantics: str.splitlines() also splits at VT, FF, FS, GS,
+        # RS, NEL, LS, PS and CR
+    R.check(init, what, ok,
+            'the source must be cut into lines with split("\\n"): '
+            'str.splitlines() (or a wider separator) also breaks lines at form '
+            'feed, vertical tab, U+2028 ..., which the language treats as '
+            'ordinary white space inside strings and comments')
+    tok = lex.methods['tokens']
+    # order of the two operations applied to a string token: data flow of the
+    # variable through `[1:-1]` and `.replace(<backslash quote>, <quote>)`
+    var = None
+    ops = []        # in evaluation order
+
+    def visit(e):
+        if isinstance(e, ast.Subscript) and isinstance(e.slice, ast.Slice) \
+                and norm(e.slice) == '1:-1':
+            visit(e.value)
+            ops.append('strip')
+        elif isinstance(e, ast.Call) and isinstance(e.func, ast.Attribute) \
+                and e.func.attr == 'replace' and len(e.args) == 2 \
+                and A.try_fold(e.args[0], tok) == '\\"' \
+                and A.try_fold(e.args[1], tok) == '"':
+            visit(e.func.value)
+            ops.append('unescape')
+        elif isinstance(e, (ast.Call, ast.Subscript, ast.Attribute)):
+            for ch in ast.iter_child_nodes(e):
+                visit(ch)
+    cfg = A.cfg(tok)
+    order = []
+    for n in cfg.nodes:
+        if n.kind == 'stmt' and isinstance(n.ast, ast.Assign):
+            ops[:] = []
+            visit(n.ast.value)
+            if ops:
+                order.append((n, list(ops)))
+    flat = []
+    # statements in CFG order along the string branch
+    for n, o in sorted(order, key=lambda x: x[0].id):
+        flat += o
+    R.check(tok, 'string token: %s' % ' then '.join(flat),
+            flat == ['strip', 'unescape'],
+            'the enclosing quotes must be removed before \\" is turned into ": '
+            'otherwise a string ending in a backslash loses it together with '
+            'the closing quote ("Deck\\\\" is read as Deck)')
